@@ -29,6 +29,7 @@ mod c01;
 mod c04;
 mod c10;
 mod c15;
+mod c11;
 mod util;
 
 use std::path::PathBuf;
@@ -77,7 +78,10 @@ fn main() {
     match prop.as_str() {
         "C02" => c02::run(&cfg, &mut out),
         "C06" => c06::run(&cfg, &mut out),
-        "C07" => c07::run(&cfg, &mut out),
+        "C07" => {
+            c07::run(&cfg, &mut out);
+            c07::run_concurrent(&cfg, &mut out);
+        }
         "C08" => {
             c08::run(&cfg, &mut out);
             c08::run_sessions(&cfg, &mut out);
@@ -97,6 +101,7 @@ fn main() {
         "C04" => c04::run(&cfg, &mut out),
         "C10" => c10::run(&cfg, &mut out),
         "C15" => c15::run(&cfg, &mut out),
+        "C11" => c11::run(&cfg, &mut out),
         other => {
             eprintln!("unknown property {}", other);
             std::process::exit(2);
